@@ -52,7 +52,7 @@ func init() {
 			"update is kernelEndFrame+1, the region start, or lastAllocFrame+1; (R5) the kernel image is stepped over: the update lastAllocFrame+1 is unreachable once the edges " +
 			"`lastAllocFrame+1 != kernelStartFrame` and `lastAllocFrame > regionEndFrame` are removed, and the update to the region start is unreachable once `kernelStartFrame != " +
 			"regionStartFrame` and `lastAllocFrame > regionStartFrame` are removed (cut form of the kernel-jump conditions).",
-		EnumRule: "obligations per rule and construct",
+		EnumRule:    "obligations per rule and construct",
 		Assumptions: []string{"strict monotonicity and the kernel-jump case analysis are relational facts over four variables and are not decided"},
 		Controls: []Control{
 			{Name: "success recorded before the cursor is adjusted", File: "kernel/mm/pmm/bootmem_allocator.go", Old: "\t\t// If last frame used a different region and the kernel image", New: "\t\terr = nil\n\t\t// If last frame used a different region and the kernel image", Expect: "C02.R2"},
@@ -100,18 +100,18 @@ type pmmx struct {
 	c *Ctx
 	m *Module
 
-	allocT, bootT, poolT                                    *types.Named
-	bInit, setup, markRole, kernelRole, replayRole, bAlloc  *ssa.Function
-	initDone                                                *ssa.Function
-	bFree, poolFor, bootInit, bootAlloc, pmmInit, setFA     *ssa.Function
-	visit, earlyWrap, bitmapWrap                            *ssa.Function
-	freeBitmap, freeCount, reserved, totalPages             *types.Var
-	startFrame, endFrame, bmHdr                             *types.Var
-	allocCount, lastAlloc, kStartF, kEndF                   *types.Var
-	regType, regPhys, regLen                                *types.Var
-	memAvail, pageSize                                      uint64
-	z                                                       *Polyizer
-	S, E1, N                                                Poly // start, end+1 (fdiv), count
+	allocT, bootT, poolT                                   *types.Named
+	bInit, setup, markRole, kernelRole, replayRole, bAlloc *ssa.Function
+	initDone                                               *ssa.Function
+	bFree, poolFor, bootInit, bootAlloc, pmmInit, setFA    *ssa.Function
+	visit, earlyWrap, bitmapWrap                           *ssa.Function
+	freeBitmap, freeCount, reserved, totalPages            *types.Var
+	startFrame, endFrame, bmHdr                            *types.Var
+	allocCount, lastAlloc, kStartF, kEndF                  *types.Var
+	regType, regPhys, regLen                               *types.Var
+	memAvail, pageSize                                     uint64
+	z                                                      *Polyizer
+	S, E1, N                                               Poly // start, end+1 (fdiv), count
 }
 
 func newPMMX(c *Ctx, rule string) *pmmx {
